@@ -126,9 +126,37 @@ class Shadow:
 STRUCTURAL = ("sample-size-not-floor-or-ceil-c", "serde-throws", "serde-changes-state", "c-not-closed-form", "item-duplicated")
 
 
+_FLAGS = None
+
+
+def source_flags():
+    """source-shape flags regenerated from the headers by tools/trules/ebpps.py at the start of this run"""
+    global _FLAGS
+    if _FLAGS is None:
+        import os, re
+        try:
+            txt = open(os.path.join(core.LEAN, "DSGen", "Ebpps.lean")).read()
+            _FLAGS = {k: v == "true" for k, v in re.findall(r"def ebpps_(\w+) : Bool := (true|false)", txt)}
+        except Exception:
+            _FLAGS = {}
+    return _FLAGS
+
+
 def keyed(base, sh):
-    """known-finding signature: the root cause when the sketch's history contains a known defect trigger."""
-    t = sh.taints if sh is not None else set()
+    """known-finding signature: the root cause when the sketch's history contains a known defect trigger.
+    A trigger whose defect is repaired in the source (flag read from the headers) is not a root cause any more."""
+    t = set(sh.taints) if sh is not None else set()
+    fl = source_flags()
+    if fl.get("geDraw"):
+        t.discard("zero-draw")
+    if fl.get("mergeSetsWtMax"):
+        t.discard("stale-source"); t.discard("stale")
+    if fl.get("clampTheta"):
+        t.discard("theta-above-one")
+    if fl.get("vanishFix"):
+        t.discard("vanishing-partial")
+    if fl.get("mergeEmptyShrinks"):
+        t.discard("empty-k")
     if "zero-draw" in t:
         return "unit-draw-zero"
     if "stale-source" in t:
@@ -407,7 +435,7 @@ class Main(Part):
                 what = "c=%s but min(k, cumWt/wtMax)=min(%d, %s/%s)=%s" % (None if c is None else float(c), s.k, s.W, s.M, float(cs))
                 if "empty-k" in s.taints and c is not None and (k != s.k or c > k):
                     # the observed k is not the demanded one / c exceeds k: the empty-operand defect, whatever else happened
-                    bad.append(("merge-empty-operand-k" if "zero-draw" not in s.taints else "unit-draw-zero", "c-not-closed-form: " + what, i))
+                    bad.append((keyed("c-not-closed-form", s), "c-not-closed-form: " + what, i))
                 else:
                     flag("c-not-closed-form", s, what, i)
             if c is not None and s.pure and s.equal_w and s.n <= s.k:
@@ -619,11 +647,13 @@ CLAIM = dict(
           "recomputed from the history with exact fractions) on every implementation trace."),
     note=("NOT formalised: the global statement 'over the sampling randomness each item's inclusion probability is proportional to its weight' "
           "(a statement about the joint distribution of all draws of a whole history; DESIGN.md section 5) - only the one-step identities are "
-          "proved. Binary64 rounding is not modelled in the theorems (the Float instance is only executed and compared). Open findings on the pinned "
-          "code, each with a Lean witness or a bit-exact model reproduction, a replayed regress history and a proposed patch: internal_merge never "
-          "stores the new maximum weight (eb_c_closed_form_full_false); a next_double() of exactly 0.0 loses the partial item "
-          "(eb_structure_full_false); an empty merge operand does not lower k / lowers k without shrinking the sample (eb_merge_full_false); two "
-          "rounding defects in merge (theta one ulp above 1; a vanishing fraction promoted to a full item) that break the sample-size law and can "
-          "index past data_. The generator steers around continuations that would crash the pinned code after those defects."),
+          "proved. Binary64 rounding is not modelled in the theorems (the Float instance is only executed and compared). Five genuine defects of the "
+          "pinned code were found by this check, each with a Lean witness (`..._full_false`) or a bit-exact model reproduction and a replayed regress "
+          "history; four are repaired in /repo by `fix:` commits (stale wt_max after merge f33144e; a draw of exactly 0.0 losing the partial item "
+          "e2a7605; theta one ulp above 1 stored as a partial item -> out-of-bounds subsample a254b8d; a vanishing fraction promoted to a full item "
+          "1c51200 - known_findings.json: fixed; the translator reads the repaired source shapes, the model follows, and the oracle keys follow the "
+          "flags). One stays OPEN as a known finding: merging an EMPTY sketch ignores its smaller k (and the other direction lowers k without "
+          "shrinking the sample) - the Java reference returns early in the same way, so the repair is a semantic decision for the maintainers "
+          "(proposed_fixes/C18-merge-empty-k.patch; eb_merge_full_false keeps the witness)."),
     technique="Lean 4 invariant proofs over Rat (generic model, Float instance executed) + differential correspondence with hook-supplied draws + trace oracle",
     design="DESIGN.md §3 C18")
